@@ -30,6 +30,25 @@ CHECKS = {
         ref='DESIGN.md 2/C12'),
 }
 
+CHECKS.update({
+    'C05': dict(
+        technique='static analysis: table theorems over code-derived 8-valued primitive tables (engine A) and folded LUT constants; structural class/column agreement',
+        text='For all 33 primitives and all 6^4 known operand tuples: 8-valued initial/final equal LUT(initials)/LUT(finals), and a result without activity implies the LUT is constant '
+             'on the cube of active operands, so by the parity invariant (C03) the timing kernel can emit no edge. Both simulators provably share SimOps, LUT column and operand columns.',
+        note='Trusted: C03 parity invariant, float32 sentinel absorption, induction over the op list. Not decided: option settings (C06-C08).',
+        ref='DESIGN.md 2/C05'),
+    'C16': dict(
+        technique='static analysis: call-site contract lint on LogicSim.c_prop (presence per logic arm, argument provenance through the c_locs rebinding, basic-index view)',
+        text='Decides the "invoked once per evaluated signal with its identity and a writable view" clause completely for all three logic arms, for every circuit, because it is a property of the loop body shape.',
+        note='Trusted: numpy basic indexing yields a writable view. "Nothing upstream changes" relies on C07.',
+        ref='DESIGN.md 2/C16'),
+    'C19': dict(
+        technique='static analysis: constant folding of the five library strings, DSL reader driven by the regexes found in TechLib.__init__, primitive resolution through kind_prefixes, exhaustive truth tables (<=64 rows) vs family oracle',
+        text='Every one of the 263 definitions (1026 names) is checked for pin discipline and primitive resolution; every combinational cell in a named family is evaluated exhaustively over its inputs and compared per output pin.',
+        note='Trusted: the family oracle (stands in for vendor datasheets), LUT constants (C01). Cells outside the families get pin/resolution rules only and are listed in the evidence.',
+        ref='DESIGN.md 2/C19'),
+})
+
 NOT_YET = {
 }
 
